@@ -47,3 +47,56 @@ R2 = [('additive', {'equation': 'C = A + B'}), ('additive', {'equation': 'B = A 
 for cls in ('Model', 'LineageModel'):
     lineage_contract('rules-registered:1', cls, R1, ['C09', 'C08'])
     lineage_contract('rules-registered:2', cls, R2, ['C09', 'C08'])
+
+
+# ---- lineage features (events, rules, splitters) are registered exactly once, in registration order, whatever the history of
+# initialisations (C08: the model reached by edits and repeated initialisations equals the model built at once; C19: the propensity
+# slot of an event is the event's own)
+from bsvc import terms as tm
+
+
+def lineage_reinit_contract(variant, edit_between):
+    c = Contract('types', 'Model._initialize', ['C08', 'C19'], variant='LineageModel:' + variant)
+    c.self_class = 'LineageModel'
+
+    def cself(ex, cls):
+        from contracts import pickling
+        ex.force_inline = True
+        try:
+            m = pickling.build_lineage_full(ex)        # growth event, division rule + splitter, death event, division event, volume rule, death rule; initialised
+            if edit_between:
+                ex.call_method(m, ex.program.find_method(m.cls, 'create_volume_event'),
+                               ['linear volume', {'growth_rate': 0.25}, 'massaction', {'k': 0.7, 'species': ''}], {})
+        finally:
+            ex.force_inline = False
+        m.name = 'self'
+        return m
+    c.concrete_self = cself
+
+    def check(ex, fr, result):
+        m = fr.env['self']
+        f = m.fields
+        nv = 2 if edit_between else 1
+        want = dict(volume_events=nv, division_events=1, death_events=1, volume_rules=1, death_rules=1, division_rules=1,
+                    lineage_propensities=nv + 2)
+        for name, n in want.items():
+            lst, cv = f.get(name), f.get('c_' + name)
+            ex.oblige('post', tm.mk_bool(isinstance(lst, list) and len(lst) == n), label='%s-registered-once' % name,
+                      note='%s has %s entries, expected %d' % (name, len(lst) if isinstance(lst, list) else lst, n))
+            ok = isinstance(cv, list) and isinstance(lst, list) and len(cv) == len(lst) and all(a is b for a, b in zip(cv, lst))
+            ex.oblige('post', tm.mk_bool(bool(ok)), label='c_%s-mirrors-the-list' % name,
+                      note='C vector has %s entries' % (len(cv) if isinstance(cv, list) else cv))
+        # propensity slots: volume events, then division events, then death events (the order the single-cell loop decodes)
+        lp = f.get('lineage_propensities')
+        evs = [t[1] for t in f.get('volume_events_list', [])] + [t[1] for t in f.get('division_events_list', [])] + [t[1] for t in f.get('death_events_list', [])]
+        ex.oblige('post', tm.mk_bool(isinstance(lp, list) and len(lp) == len(evs) and all(a is b for a, b in zip(lp, evs))),
+                  label='propensity-slots-in-the-order-volume-division-death')
+        ex.oblige('post', tm.mk_bool(len(f.get('rule_volume_splitters', [])) == 1 and len(f.get('event_volume_splitters', [])) == 1), label='splitters-registered-once')
+    c.after(check)
+    c.opt(verify_only=True)
+    C.REGISTRY[c.key] = c
+    C.ORDER.append(c.key)
+
+
+lineage_reinit_contract('initialised-again', False)
+lineage_reinit_contract('event-added-then-initialised-again', True)
